@@ -259,10 +259,12 @@ class Env:
                     ok = False
         return ok
 
-    def holds(self, name, cond, detail=""):
-        """obligation: cond is true for all inputs on this path"""
+    def holds(self, name, cond, detail="", using=None):
+        """obligation: cond is true for all inputs on this path.  using: a list of facts, each already established
+        by an obligation of its own, to be used *instead of* the path condition (a lemma-style split that keeps
+        the solver's problem small)"""
         if self.sym:
-            return self._decide(name, lambda extra: prove(self.ctx, cond, self.obl_timeout_ms, extra), detail)
+            return self._decide(name, lambda extra: prove(self.ctx, cond, self.obl_timeout_ms, extra, premises=using), detail)
         good = bool(cond)
         self._record(name, "valid" if good else "cex", None, detail)
         return good
@@ -297,7 +299,7 @@ def run_concrete(prop, cfg, inputs, known=(), floats=False):
     """Run the harness body on the real code with plain numbers.
     Returns dict(outcome=ok|exc|assume, exc=..., failed=[names], observed=[...])."""
     env = Env(False, cfg, inputs={k: Fraction(v) for k, v in inputs.items()}, known=known, prop_id=prop.ID,
-              floats=floats)
+              floats=floats or bool(cfg.get("floats")))
     res = dict(outcome="ok", exc=None, failed=[], observed=[], detail=[])
     try:
         prop.body(env, cfg)
